@@ -42,6 +42,13 @@ func (w *walletFilePbkdf2) decrypt(password []byte) (err error) {
 		return fmt.Errorf("invalid pbkdf2 wallet file: unsupported prf '%s'", w.Crypto.KDFParams.PRF)
 	}
 
+	if w.Crypto.KDFParams.DKLen != 32 {
+		return fmt.Errorf("invalid pbkdf2 wallet file: derived key length %d != 32", w.Crypto.KDFParams.DKLen)
+	}
+	if w.Crypto.KDFParams.C <= 0 {
+		return fmt.Errorf("invalid pbkdf2 wallet file: unsupported iteration count c=%d", w.Crypto.KDFParams.C)
+	}
+
 	derivedKey := pbkdf2.Key(password, w.Crypto.KDFParams.Salt, w.Crypto.KDFParams.C, w.Crypto.KDFParams.DKLen, sha256.New)
 
 	w.privateKey, err = w.Crypto.decryptCommon(derivedKey)
